@@ -193,7 +193,7 @@ def op4_subsets_bounded(seed, quick):
     dense_of = lambda G: G.toarray() if sps.issparse(G) else np.asarray(G)
     try:
         files = []
-        for rep in range(2 if quick else 6):
+        for rep in range(2 if quick else 24):
             for kind in ("binary<", "binary>", "binary<64", "asciiE", "asciiD", "ascii-wide"):
                 nmat = 4
                 if kind.startswith("binary"):
